@@ -360,10 +360,19 @@ def r_shared_matcher(ctx):
             if c is not None and strip_generics(c["path"]).endswith("EbmlSpecification::get_path_by_id"):
                 r = prog.function_root(b)
                 users.add(r.path if r else b.path)
-    allowed = {"spec_util::validate_tag_path", "spec_util::is_parent", "spec_util::is_sibling", "spec_util::is_ended_by",
-               "tag_iterator::TagIterator::peek_valid_tag_header"}
+    def seeds_stack(path):
+        # the one other legitimate reader: the function that seeds the implied ancestors, i.e. assigns the open-master stack from the path
+        b = prog.bodies.get(path)
+        if b is None:
+            return False
+        for bd in [b] + prog.closures_of(path):
+            for bb, i, st in bd.statements():
+                if st["k"] == "assign" and st["place"]["proj"] and st["place"]["proj"][-1].get("name") == "tag_stack":
+                    return True
+        return False
     for u in sorted(users):
-        rep.instance("%s reads declared paths" % u)
-        rep.oblige(u in allowed, "MATCHER|path-reader|%s" % u, u, "%s consults get_path_by_id outside the shared matcher / closing rules" % u)
+        ok = u.startswith("spec_util::") or (u.startswith("tag_iterator::TagIterator::") and seeds_stack(u))
+        rep.instance("%s reads declared paths%s" % (u, "" if u.startswith("spec_util::") else " (seeds the implied ancestors)" if ok else ""))
+        rep.oblige(ok, "MATCHER|path-reader|%s" % u, u, "%s consults get_path_by_id outside the shared matcher / closing rules" % u)
     rep.require_floor(4, "matcher call sites and path readers")
     return rep
